@@ -31,7 +31,7 @@ CHECKS = {
  "C04": dict(
     level="exploration", design="2/C04",
     technique="runtime monitor: reference interpretation (independent RFC 8010 decoder + interp) vs parser result over grammar-generated wire trees and enumerated token sequences",
-    text="Wire-level message trees are generated from the RFC 8010 grammar (every value tag 0x10-0x4a, non-UTF-8 text, repeated/empty groups, messages not starting with the operation group, mixed sets, multi-valued members, sets of collections, boundary lengths), encoded by the reference encoder and parsed by the library; the result read through the public API must equal the reference interpretation. Every 6th message is additionally read as the second message of a stream, through the reader parse_parts() handed back for the first. Every token sequence up to length 4 (thorough 6) that the reference decoder accepts is judged the same way, and bytes outside the tag ranges substituted at tag positions must yield exactly InvalidTag(b). Coverage floors (all 57 non-structural value tags, each listed form seen) make a thin run inconclusive.",
+    text="Wire-level message trees are generated from the RFC 8010 grammar (every value tag 0x10-0x4a, non-UTF-8 text, repeated/empty groups, messages not starting with the operation group, mixed sets, multi-valued members, sets of collections, boundary lengths), encoded by the reference encoder and parsed by the library; the result read through the public API must equal the reference interpretation. Every 6th message is additionally read as the second message of a stream, through the reader parse_parts() handed back for the first. Every token sequence up to length 4 (thorough 6) that the reference decoder accepts is judged the same way, bytes outside the registered delimiter and value-tag ranges (0x00, 0x0b-0x0f, 0x80-0xff) substituted at tag positions must yield exactly InvalidTag(b), and bytes a library may come to accept (0x06-0x0a, 0x4b-0x7f) must be rejected or represented, never skipped. Coverage floors (all 57 non-structural value tags, each listed form seen) make a thin run inconclusive.",
     note="Trusted: ippref (reference codec), anchored to RFC example vectors. Inputs the reference decoder rejects are not judged."),
  "C05": dict(
     level="exploration", design="2/C05",
@@ -77,8 +77,8 @@ CHECKS = {
  "C15": dict(
     level="exploration", design="2/C15",
     technique="runtime cost monitoring on deterministic step measures: counting global allocator (bytes, calls) and cachegrind instruction counts over doubling input families; incremental-ratio oracle",
-    text="31 doubling families plus a hash-flood family (nesting with/without member names and with multi-valued members, set width with one tag, with eight alternating tags at top level and inside a collection member, and with distinct keyword strings, set of collections, one wide collection followed by many small ones, thousands of attributes or members sharing one or three names, a wide set led by thousands of no-value entries, long text / keyword / text-with-language values, a long run of other groups followed by as many operation-group delimiters, attribute/group/member count in ascending, descending and shuffled name order, value/name length, invalid-UTF-8 names and values, four malformed floods), both parsers, sizes 2 KiB to 256 KiB (thorough 1 MiB) for the allocation measure and 4 KiB to 64 KiB (thorough 1 MiB) under cachegrind. With a logger installed that takes every level, the volume the library formats into log records is a third step measure (11 families). Growing reallocs count with their full requested size. For consecutive doublings the incremental ratio (c(4n)-c(2n))/(c(2n)-c(n)) must stay <= 2.6 (n log n passes, quadratic gives 4) and allocated bytes <= 256 KiB + 1024 n. Wall clock is never a verdict; a series stops at its first violating doubling so a quadratic tree is reported at KiB sizes within seconds.",
-    note="Instruction counts include process start-up and input generation (linear, cancelled by the incremental ratio). Only the families listed are covered."),
+    text="31 doubling families plus a hash-flood family (nesting with/without member names and with multi-valued members, set width with one tag, with eight alternating tags at top level and inside a collection member, and with distinct keyword strings, set of collections, one wide collection followed by many small ones, thousands of attributes or members sharing one or three names, a wide set led by thousands of no-value entries, long text / keyword / text-with-language values, a long run of other groups followed by as many operation-group delimiters, attribute/group/member count in ascending, descending and shuffled name order, value/name length, invalid-UTF-8 names and values, four malformed floods), both parsers, sizes 2 KiB to 256 KiB (thorough 1 MiB) for the allocation measure and 4 KiB to 64 KiB (thorough 1 MiB) under cachegrind. With a logger installed that takes every level, the volume the library formats into log records is a third step measure (11 families). Growing reallocs count with their full requested size. Growth per doubling is 2 x the marginal cost per input byte of the last doubling over the steepest marginal cost of any earlier doubling (where marginal cost never falls this is (c(4n)-c(2n))/(c(2n)-c(n)): n log n stays near 2, quadratic gives 4); two doublings in a row above 2.6 are a violation (one alone is a suspicion the next doubling, taken even beyond the size cap, confirms or clears, so a one-off step between buffering regimes is not mistaken for super-linear cost), as is allocated bytes > 256 KiB + 1024 n. Wall clock is never a verdict; a series stops at its first violation so a quadratic tree is reported at KiB sizes within seconds.",
+    note="Instruction counts include process start-up and input generation (linear, cancelled by taking increments). Only the families listed are covered."),
  "C16": dict(
     level="exploration", design="2/C16",
     technique="runtime monitor by complete enumeration of the finite code domains against registry tables embedded in the harness (exhaustive: true)",
